@@ -62,5 +62,6 @@ func MergeRects(rects []Rect) Polygon {
 		i++
 		j--
 	}
-	return Polygon{points, r}
+	// with equal sides there are less than 4 vertices per rectangle
+	return Polygon{points[:i], r}
 }
